@@ -413,12 +413,18 @@ def c18i(ctx):
         ctx.ok('%s:source-labelled' % f.short, 'the loaded tile source is created with the cache\'s image options', f, x)
     lt = ctx.fn('mapproxy/cache/tile.py:TileManager._load_tile_coords')
     g = lt.cfg
-    loads = [n for n, x in g.find(lambda x: is_call(x, 'self.cache.load_tiles'))]
+    load_calls = g.find(lambda x: is_call(x, 'self.cache.load_tiles'))
+    loads = [n for n, x in load_calls]
     labels = g.find_stmts(lambda s: isinstance(s, ast.Assign) and unparse(s.targets[0]).endswith('.source.image_opts') and same(s.value, 'self.image_opts'))
-    rets = [r for r in g.find_stmts(lambda s: isinstance(s, ast.Return)) if loads and any(g.reaches_avoiding(l, r) for l in loads)]
+    all_rets = g.find_stmts(lambda s: isinstance(s, ast.Return))
     loops = [g.node_of[id(l)] for l in lt.walk() if isinstance(l, ast.For) and id(l) in g.node_of and any(inside(g.stmt[s], l) for s in labels)]
-    central = bool(loads) and bool(loops) and all(any(g.dominates(l, lp) for l in loads) for lp in loops) and \
-        all(any(g.dominates(lp, r) for lp in loops) for r in rets)
+    # every batch load (the first one and the late one for tiles stored meanwhile) is followed by a labelling loop over the list it
+    # loaded, on every way to a return
+    central = bool(loads) and bool(loops)
+    for l, x in load_calls:
+        lst = unparse(x.args[0]) if x.args else '?'
+        mine = [lp for lp in loops if unparse(g.stmt[lp].iter) == lst and g.dominates(l, lp)]
+        central = central and bool(mine) and not any(g.reaches_avoiding(l, r, avoid=set(mine)) for r in all_rets)
     # the label is only set where it is missing (a labelled source keeps its own)
     central = central and all(g.guarded(s, lambda at: at.op == '==' and 'image_opts' in at.text and 'None' in at.text, True) or
                               g.guarded(s, lambda at: at.op is None and 'image_opts' in at.text, False) for s in labels)
